@@ -519,7 +519,7 @@ theorem resolveOrig_eq_of_distinct_names (valid : Str → Bool) (reg : Registry)
 /-! ### "latest release": the client's `max_by` fold against the specification's "no later release" -/
 
 /-- the order key of a release's version -/
-def relKey (r : Release) : List Nat :=
+def relKey (r : Release) : List (List Nat) :=
   match parseVersion r.version with
   | some v => v.key
   | none => []
